@@ -430,7 +430,7 @@ static int restore_size (char **str, int is_mapping) {
     {
       mb_span = mblen (cp, MB_CUR_MAX);
       if (mb_span < 0)
-                    return -1;
+        mb_span = 1; /* not a character in this locale: a byte that stands for itself */
       cp += mb_span; /* don't check in the middle of a multibyte character */
       switch (c)
                     {
@@ -441,7 +441,7 @@ static int restore_size (char **str, int is_mapping) {
                       {
                               mb_span = mblen (cp, MB_CUR_MAX);
                               if (mb_span < 0)
-                                return -1;
+                                mb_span = 1;
                               cp += mb_span; /* don't check backslash in the middle of a multibyte character */
                               if ((c == '\0') || (c == '\\' && !*cp++))
                                 return 0;
